@@ -350,7 +350,7 @@ def _example_handle(pkg):
     cache = pkg.__dict__.setdefault("_example_handle", {})
     if "fn" not in cache:
         import copy
-        cache["fn"] = _untuple(copy.deepcopy(pkg.expanded("ExampleCommand", "handle", keep=("option", "choice", "confirm", "call", "line", "argument"))))
+        cache["fn"] = _inline_once_temps(_join_dict_stores(_untuple(copy.deepcopy(pkg.expanded("ExampleCommand", "handle", keep=("option", "choice", "confirm", "call", "line", "argument"))))))
     return cache["fn"]
 
 
